@@ -78,7 +78,7 @@ Proof.
   destruct Hm as (H00 & H11 & H22 & H01 & H12 & H20). cbn [vx vy vz] in *.
   assert (Erows : vmap (renorm RS) (mkV r0 r1 r2) = mkV r0 r1 r2).
   { unfold vmap; cbn [vx vy vz]. rewrite !renorm_unit by assumption. reflexivity. }
-  unfold adjust_raw, adjust_divzero, adj_c1pre. rewrite Erows.
+  unfold adjust_raw, adjust_cols, adjust_divzero, adj_c1pre. rewrite Erows.
   remember (transpose (mkV r0 r1 r2)) as cols eqn:Ecols.
   destruct cols as [c0 c1 c2].
   destruct Hc as (G00 & G11 & G22 & G01 & G12 & G20). cbn [vx vy vz] in *.
